@@ -522,12 +522,14 @@ func poolMain(args []string) int {
 	seed := fs.Int64("seed", 1, "seed")
 	workers := fs.Int("workers", runtime.NumCPU(), "workers")
 	guardN := fs.Int("guard", 300, "largest guarded capacity")
+	encbufMax := fs.Int("encbufmax", 400, "EncBuf: capacities up to min(text length, this) + 3 per value")
 	fs.Parse(args)
 	t0 := time.Now()
 	type sum struct {
 		Histories int            `json:"histories"`
 		Evals     int            `json:"evals"`
 		Guarded   int            `json:"guarded_buffers"`
+		EncBuf    int            `json:"encbuf_cases"`
 		Bad       []poolBad      `json:"bad"`
 		BadBySig  map[string]int `json:"bad_by_sig"`
 		Crashes   []string       `json:"crashes"`
@@ -635,6 +637,35 @@ func poolMain(args []string) int {
 		fmt.Fprintln(os.Stderr, "pool guard:", err)
 		return 2
 	}
+	// spec/EncBuf.tla: every zoo value at every capacity and prefix, capacity ending at a guard page
+	ecases := make(chan []byte, 256)
+	go func() {
+		encbufCases(*seed, *encbufMax, func(b []byte) { ecases <- b })
+		close(ecases)
+	}()
+	err = workpool.Run(workpool.Options{Kind: "encbuf", Workers: *workers, Batch: 64,
+		OnResult: func(cl, rl []byte) {
+			var r poolRes
+			if json.Unmarshal(rl, &r) != nil {
+				return
+			}
+			S.EncBuf++
+			S.Evals += r.Evals
+			for _, b := range r.Bad {
+				add(b)
+			}
+		},
+		OnCrash: func(c workpool.Crash) {
+			st := c.Stderr
+			if len(st) > 1500 {
+				st = st[len(st)-1500:]
+			}
+			S.Crashes = append(S.Crashes, c.Reason+" (guard page, EncBuf): "+string(c.Case)+"\n"+st)
+		}}, ecases)
+	if err != nil {
+		fmt.Fprintln(os.Stderr, "pool encbuf:", err)
+		return 2
+	}
 	for _, b := range poolDecodeSide() {
 		add(b)
 	}
@@ -652,4 +683,5 @@ func init() {
 	subcmds["pool"] = poolMain
 	workpool.Register("pool", poolHandle)
 	workpool.Register("poolguard", poolGuardHandle)
+	workpool.Register("encbuf", encbufHandle)
 }
